@@ -9,7 +9,7 @@ VARIABLES st, P, sc, left, extra
 vars == <<st, P, sc, left, extra>>
 
 N == Len(P.clean)
-CcOf(n) == CASE P.proto = "T4" -> (IF n % 3 = 1 THEN "I" ELSE IF n % 3 = 2 THEN "R" ELSE "P")
+CcOf(n) == CASE P.proto = "T4" -> (IF n % 4 = 1 THEN "I" ELSE IF n % 4 = 2 THEN "R" ELSE IF n % 4 = 3 THEN "P" ELSE "act")
              [] P.proto = "T2" /\ n = 2 /\ N >= 3 -> "ssel2"
              [] OTHER -> "std"
 Docs == {{}, {"None"}, {"False"}, {"any"}}
